@@ -168,7 +168,7 @@ def run(ctx):
             if not mini:
                 violations.append({"what": f"feature `{f}` alone exposes nothing of its quantity", "input": f, "observed": "empty corpus output"})
         # std on/off must not change results either
-        for f in (["temperature"] + ([] if quick else QF[:4])):
+        for f in (["temperature", "length"] + ([] if quick else QF[:4])):
             nostd, out = corpus([f] + [x for x in extra if x != "std"])
             if nostd is None:
                 violations.append({"what": f"the operation corpus for feature `{f}` does not build without std", "input": f, "observed": out[-300:]})
